@@ -46,7 +46,8 @@ class Denoter:
             if var.name not in env:
                 raise Unsupported(f"free variable {var.name} has no value")
             return env[var.name]
-        if var.name in bound and not var.star:
+        if var.name in bound:
+            # a value-marked child/parent is a constant; under a Sum over the same name it has no agreed meaning
             raise Unsupported(f"ill-scoped: marked {var} under Sum over {var.name}")
         return 1 if var.star else 0
 
